@@ -108,6 +108,26 @@ def gen(seed, tier):
                                           0 if zero_what == 0 else r.randint(1, 511)))
         segs = ([seg(0, [first])] if i % 2 else []) + [seg(0, [g.f_df11(icao, ca=5)]), seg(0, [reply]), seg(0, [last])]
         cases.append(H("C09-b%d" % i, dict(o), segs))
+    # in ONE reader run: velocity squitters of different aircraft whose component / rate fields differ in a single bit: every
+    # frame is decoded from its own bits, nothing is remembered from the previous frame
+    for i in range(22 if tier == "quick" else 220):
+        pool = r.sample(ICAOS, 4)
+        st = r.choice([1, 1, 2])
+        base = [r.randint(0, 1), r.randint(1, 1023), r.randint(0, 1), r.randint(1, 1023), r.randint(0, 1), r.randint(0, 1), r.randint(1, 511)]
+        width = [1, 10, 1, 10, 1, 1, 9]
+        lines = []
+        for k, a in enumerate(pool):
+            f = list(base)
+            if k % 2:
+                bit = (i + k) % 33
+                for j, w in enumerate(width):
+                    if bit < w:
+                        f[j] ^= 1 << bit
+                        break
+                    bit -= w
+            lines.append(g.f_df17(a, me_velocity(st, *f)))
+        o = {"U": 1} if i % 2 else {}
+        cases.append(H("C09-n%d" % i, o, [seg(0, lines)]))
     # through the pipeline: first and n-th frame, +/-U
     for i in range(150 if tier == "quick" else 1500):
         icao = r.choice(ICAOS)
